@@ -268,6 +268,55 @@ def _terminates(block):
     return False
 
 
+def _case_conditions(subject, case):
+    """what `case <pattern> [if <guard>]:` of `match <subject>:` asserts, as (test, polarity) pairs over the subject's own expressions:
+    literal sub-patterns become `elem == literal`, class patterns `isinstance(elem, C)`, captures are substituted into the guard"""
+    conds, captures = [], {}
+
+    def go(pat, subj):
+        if isinstance(pat, ast.MatchValue):
+            conds.append(normalise_test(ast.copy_location(ast.Compare(left=subj, ops=[ast.Eq()], comparators=[pat.value]), pat)))
+        elif isinstance(pat, ast.MatchSingleton):
+            if pat.value is True or pat.value is False:
+                conds.append(normalise_test(subj, bool(pat.value)))
+            else:
+                conds.append((ast.copy_location(ast.Compare(left=subj, ops=[ast.Is()], comparators=[ast.Constant(value=pat.value)]), pat), True))
+        elif isinstance(pat, ast.MatchAs):
+            if pat.pattern is not None:
+                go(pat.pattern, subj)
+            if pat.name:
+                captures[pat.name] = subj
+        elif isinstance(pat, ast.MatchSequence) and isinstance(subj, (ast.Tuple, ast.List)) and len(pat.patterns) == len(subj.elts) \
+                and not any(isinstance(x, ast.MatchStar) for x in pat.patterns):
+            for q, e in zip(pat.patterns, subj.elts):
+                go(q, e)
+        elif isinstance(pat, ast.MatchClass) and not pat.patterns and not pat.kwd_patterns:
+            conds.append((ast.copy_location(ast.Call(func=ast.Name(id="isinstance", ctx=ast.Load()), args=[subj, pat.cls], keywords=[]), pat), True))
+        elif isinstance(pat, ast.MatchOr):
+            pass  # a disjunction asserts nothing that holds in every alternative (not needed so far)
+
+    go(case.pattern, subject)
+    if case.guard is not None:
+        import copy
+
+        class S(ast.NodeTransformer):
+            def visit_Name(self, node):
+                return copy.deepcopy(captures[node.id]) if isinstance(node.ctx, ast.Load) and node.id in captures else node
+        g = S().visit(copy.deepcopy(case.guard))
+        ast.fix_missing_locations(g)
+        if isinstance(g, ast.BoolOp) and isinstance(g.op, ast.And):
+            conds += [normalise_test(v) for v in g.values]
+        else:
+            conds.append(normalise_test(g))
+    out = []
+    for t, pol in conds:
+        # `bool(x)` / `bool(x) == True` read as x
+        while isinstance(t, ast.Call) and isinstance(t.func, ast.Name) and t.func.id == "bool" and len(t.args) == 1:
+            t, pol = normalise_test(t.args[0], pol)
+        out.append((t, pol))
+    return out
+
+
 def branch_conditions(node, stop):
     """conditions that hold at `node`: [(normalised test, polarity)] for every enclosing if (innermost first); works for
     df.effective_return stand-ins through their `_origin`"""
@@ -288,6 +337,10 @@ def branch_conditions(node, stop):
                             out.append(normalise_test(prev.test, True))
         if p is stop:
             break
+        if isinstance(p, ast.match_case):
+            m = getattr(p, "_parent", None)
+            if isinstance(m, ast.Match) and any(x is child for x in p.body):
+                out += _case_conditions(m.subject, p)
         if isinstance(p, ast.If):
             in_body = any(x is child for x in p.body)
             in_else = any(x is child for x in p.orelse)
